@@ -2421,8 +2421,11 @@ int lp_polynomial_constraint_resolve_fm(
         coefficient_add_mul(ctx, &R_c, &p2_c, &p1_lc_abs);
 //        tracef("R = "); coefficient_print(ctx, &R_c, trace_out); tracef("\n");
 
-        lp_polynomial_destruct(R);
-        lp_polynomial_construct_from_coefficient(R, ctx, &R_c);
+        // Through a temporary, so that R keeps its external mark
+        lp_polynomial_t R_tmp;
+        lp_polynomial_construct_from_coefficient(&R_tmp, ctx, &R_c);
+        lp_polynomial_swap(R, &R_tmp);
+        lp_polynomial_destruct(&R_tmp);
 
         coefficient_destruct(&p1_lc_abs);
         coefficient_destruct(&p2_lc_abs);
